@@ -175,11 +175,15 @@ func (c *coalescing) handleInputCh(ctx context.Context, ch chan<- struct{}) {
 		// Setup backoff. Backoff is exponential. If initial is 500ms and max is
 		// 5s, the backoff will follow:
 		// 500ms, 1s, 2s, 4s, 5s, 5s, 5s, ...
+		// The doubling saturates at the maximum: with a very large maximum ("no upper
+		// bound") the product would otherwise overflow time.Duration after a few
+		// dozen events and the timer would be reset to a negative duration.
 		if c.currentDur < c.maxDelay {
-			c.backoffFactor *= 2
-			c.currentDur = time.Duration(float64(c.initialDelay) * float64(c.backoffFactor))
-			if c.currentDur > c.maxDelay {
+			if c.currentDur > c.maxDelay/2 {
 				c.currentDur = c.maxDelay
+			} else {
+				c.backoffFactor *= 2
+				c.currentDur *= 2
 			}
 		}
 
